@@ -210,6 +210,10 @@ def main(tier: str, seed: int, args) -> int:
         for i in range(0, len(cases), chunk):
             unit = f"n{n}/c{i // chunk}"
             tasks.append({"fn": "c14", "unit": unit, "n": n, "cases": cases[i : i + chunk], "regions": {k[len(unit) + 1 :]: v for k, v in regions.items() if k.startswith(unit + "|")}})
+    if tier == "thorough":
+        from .. import chx
+
+        tasks += chx.tasks(["_line_col_matches_definition"], 120)  # second engine (CrossHair) on the same claim at len <= 4
     if args.only:
         tasks = [t for t in tasks if args.only in t["unit"]]
     print(f"C14 {tier}: {len(tasks)} units", flush=True)
